@@ -96,9 +96,9 @@ def value_for(w, method, pname):
             return lambda a_, b_: a_ - b_
         return lambda a_, b_: a_ == b_
     if pname == "accumulator":
-        return lambda acc, x: acc + x
+        return lambda acc, x: (10 if acc is None else acc) + x  # a None seed counts as 10: an ignored seed shows
     if pname == "seed":
-        return p
+        return None if p == 2 else p  # an explicit None seed is a seed (not "no seed given")
     if pname == "action":
         return lambda: None
     if pname in ("on_next",):
